@@ -2,10 +2,12 @@
 
 * `family(chk, name, ...)`   run TLC on specs/SqlExpr.tla for one expression family -> Family(rows, strlits, cases)
 * `Node` / `parse(tokens)`   prefix token sequence -> tree
-* `paren_sql(node)`          the harness's own FULLY PARENTHESISED SQLite rendering (every operator node in its own parentheses)
-* `or_sql(node)`             same, with IN / NOT IN expanded to the explicit OR of equalities (calibration of the IN semantics)
+* `Renderer(strlits).r(node)` the harness's own FULLY PARENTHESISED SQLite rendering (every operator node in its own parentheses);
+                             expand_in=True writes IN / NOT IN as the explicit OR of equalities (calibration of the IN semantics)
 * `Builder(cols).build(node)` the same tree built with the SQLAlchemy expression language
 * `make_db(path, rows)`      the SQLite table t(id, a, b, s, u) with exactly the rows of the specification
+* `calibrate(...)`           Val (TLC) vs SQLite on the parenthesised text; disagreement = chk.machinery (exit 2)
+* `pmap(worker, n)`          fork-parallel replay (only when the number of cases justifies a fork in this sandbox)
 """
 import json
 import os
